@@ -444,7 +444,15 @@ func (w *worker[T, JobType]) goListenToContext() {
 	go func(c context.Context) {
 		<-c.Done()
 
-		w.Stop()
+		// Restart cancels the context of the run it replaces: only the listener of
+		// the current context may stop the worker
+		w.mx.RLock()
+		current := w.ctx == c
+		w.mx.RUnlock()
+
+		if current {
+			w.Stop()
+		}
 	}(w.ctx)
 }
 
@@ -610,8 +618,12 @@ func (w *worker[T, JobType]) Stop() error {
 		return ErrNotRunningWorker
 	}
 
-	if w.cancel != nil {
-		defer w.cancel()
+	w.mx.RLock()
+	cancel := w.cancel
+	w.mx.RUnlock()
+
+	if cancel != nil {
+		defer cancel()
 	}
 	defer w.status.Store(stopped)
 
@@ -721,6 +733,9 @@ func (w *worker[T, JobType]) Resume() error {
 }
 
 func (w *worker[T, JobType]) Context() context.Context {
+	w.mx.RLock()
+	defer w.mx.RUnlock()
+
 	return w.ctx
 }
 
